@@ -9,6 +9,10 @@ Engine E1.  Rasters are enumerated as *all* sequences of N (zone, category) cell
            largest N of the non-finite family
   lay_*    3-D values: seven aggregates x layer index {0, -1} x nodata
   sel3_*   3-D values with zone_ids / cat_ids restrictions
+  layo_*   3-D values whose layer-coordinate LABELS are not in ascending order (descending [20, 10], [2020, 2010, 2000];
+           partly ordered [20, 10, 30]; strings ['b', 'a'], ['b', 'a', 'c']): the column labelled c must hold the aggregate of
+           the layer whose coordinate label is c, wherever that label sorts; seven aggregates x cat_ids in {None, every
+           ordered sub-list of 1..2 labels} x category dimension first / last
   asel_* / asel3_*   restrictions whose lists mix the ids present (zones from {10, 20, 40}) with the absent ids 5, 25, 99
            (3-D layer ids 10, 20 with absent 5, 15, 40): absent ids below the minimum, BETWEEN two existing ids and
            above the maximum, alone and mixed with existing ids, in any order
@@ -38,7 +42,9 @@ RULE = ("every sequence of N (zone, category) cells over the listed alphabets (r
         "the cat_ids sub-lists with zone_ids=None; asel spaces: the candidates are the ids present + the absent ids "
         "5, 25, 99, lists of length 0..3 one at a time and pairs of lists of length 0..1); value letters NaN, -inf, +inf are cells without category that do not "
         "count as valid cells of their zone; 3-D: every "
-        "sequence of N cells x L layers, seven aggregates, category dimension first (layer=0) or last (layer=-1).  "
+        "sequence of N cells x L layers, seven aggregates, category dimension first (layer=0) or last (layer=-1); layo "
+        "spaces: the same x every listed non-ascending labelling of the layer coordinate x cat_ids in {None, each ordered "
+        "sub-list of 1..2 of the labels} (layout 1xN only).  "
         "Memory-layout spaces: memb = every zones raster over {1, 2} x every values raster over {0, 1} x layout pairs "
         "(zones, values) in {C, F}^2 minus (C, C); memp = every zones raster over {1, 2} x the position rasters (1..N in "
         "flatten order; each one-hot raster) x layout pairs in {C, F, T}^2 minus (C, C); mem3 = every zones raster over "
@@ -60,7 +66,9 @@ ASSUMPTIONS = [
     "3-D entries of a (zone, layer) without valid cell are not asserted (aggregate of an empty set); a ValueError "
     "'zero-size array' raised by agg min/max when a selected (zone, layer) is empty is counted "
     "(counter 3d_minmax_raised_on_empty_zone_layer) and not reported as a violation",
-    "3-D values: the category dimension is the first (layer=0) or the last (layer=-1) one and carries a coordinate",
+    "3-D values: the category dimension is the first (layer=0) or the last (layer=-1) one and carries a coordinate with "
+    "pairwise different labels - integers or strings, in any order (layo spaces; elsewhere 10, 20, 30); a layer is "
+    "identified by its label, cat_ids name labels (string labels: lists of str)",
     "comparison tolerance rtol 1e-9 (atol 1e-12); counts are compared exactly within that tolerance",
     "near-nodata category letters are float64 only (for nodata=0 the neighbours are the two smallest subnormals); "
     "category columns are matched by their exact float64 label",
@@ -73,6 +81,8 @@ ABSENT = {}      # family -> (absent zones, absent categories / layers); default
 AGG2 = ("count", "percentage")
 AGG3 = ("count", "sum", "mean", "min", "max", "std", "var")
 LAYER_IDS = (10, 20, 30)
+# non-ascending labellings of the layer coordinate (kind layo), per number of layers
+LABEL_ORDERS = {2: ((20, 10), ("b", "a")), 3: ((2020, 2010, 2000), (20, 10, 30), ("b", "a", "c"))}
 
 FAMILIES = {
     # name: (zone alphabet, category alphabet, zone dtype, value dtype, nodata options)
@@ -93,6 +103,8 @@ FAMILIES = {
     "l3b": ((1.0, 2.0, NAN), (1.0, 3.0), "f8", "f8", (None,)),
     "l2i": ((1, 2, 3), (0, 1, 3), "i4", "i8", (None, 1)),
     "l2x": ((1.0, 2.0, NAN), (1.0, 3.0, -INF, INF), "f8", "f8", (None,)),
+    "lo": ((1.0, 2.0), (1.0, 3.0, NAN), "f8", "f8", (None,)),
+    "lo3": ((1.0, 2.0), (1.0, 3.0, NAN), "f8", "f8", (None,)),        # = lo, three layers (space names are per family)
     # absent requested ids below / between / above the existing ones (see ABSENT)
     "g3": ((10.0, 20.0, 40.0), (10.0, 40.0), "f8", "f8", (None,)),
     "g3i": ((10, 20, 40), (10, 40), "i8", "i4", (None,)),
@@ -145,6 +157,7 @@ PLAN = {
               ("lay", "l2w", (1,), 2), ("lay", "l2", (2,), 2), ("lay", "l3", (1,), 3), ("lay", "l3b", (2,), 3),
               ("lay", "l2i", (1, 2), 2),
               ("sel3", "l2", (1,), 2), ("sel3", "l2b", (2,), 2),
+              ("layo", "lo", (1, 2), 2), ("layo", "lo3", (1,), 3),
               ("tab", "nr0", (1, 2), 0), ("tab", "nr3", (1, 2), 0), ("tab", "nr1k", (1, 2, 3), 0),
               ("asel", "g3", (1, 2, 3), 0), ("asel3", "g3l", (3,), 2),
               ("memb", "bin", (6,), 0, MEM_SHAPES), ("memp", "pos", (6, 8), 0, MEM_SHAPES),
@@ -155,6 +168,7 @@ PLAN = {
                  ("lay", "l2w", (1, 2), 2), ("lay", "l2", (3,), 2), ("lay", "l3", (1, 2), 3), ("lay", "l3b", (3,), 3),
                  ("lay", "l2i", (1, 2, 3), 2), ("lay", "l2x", (2,), 2),
                  ("sel3", "l2", (1, 2), 2), ("sel3", "l2b", (3,), 2), ("sel3", "l3b", (1, 2), 3),
+                 ("layo", "lo", (1, 2), 2), ("layo", "lo3", (1,), 3), ("layo", "l3", (2,), 2),
                  ("tab", "nr0", (1, 2, 3), 0), ("tab", "nr3", (1, 2, 3), 0), ("tab", "nr1k", (1, 2, 3), 0),
                  ("asel", "g3", (1, 2, 3), 0), ("asel", "g3i", (1, 2, 3), 0), ("asel3", "g3l", (2, 3), 2),
                  ("memb", "bin", (6,), 0, MEM_SHAPES), ("memp", "pos", (6, 8), 0, MEM_SHAPES),
@@ -175,11 +189,13 @@ BOUNDS = {t: {"spaces": [dict(kind=e[0], family=e[1], zone_alphabet=[str(x) for 
                               absent_zones_and_cats=ABSENT.get(e[1])) for e in plan],
               "agg_2d": list(AGG2), "agg_3d": list(AGG3), "layer_index": [0, -1],
               "absent_zone": ABSENT_ZONE, "absent_category": ABSENT_CAT, "layer_ids": list(LAYER_IDS),
+              "layer_label_orders_kind_layo": {str(k): [list(x) for x in v] for k, v in LABEL_ORDERS.items()},
               "selections": "zone lists <=3 | cat lists <=3 | pairs of lists <=2 (3-D: zone lists <=2 | cat lists <=2 | "
                             "zone lists <=2 x cat lists <=1); kind csel: cat lists <=3 only, zone_ids absent; kind selt: "
                             "as sel but in a pair one of the two lists has length <=1; kind asel (absent ids 5, 25, 99 "
                             "next to the present ones): zone lists <=3 | cat lists <=3 | pairs of lists <=1, N>=3: agg count only; kind asel3: "
-                            "zone lists <=3 | layer lists <=2 | pairs of lists <=1, agg count / sum",
+                            "zone lists <=3 | layer lists <=2 | pairs of lists <=1, agg count / sum; kind layo: zone_ids "
+                            "absent, cat_ids absent | each ordered sub-list of 1..2 labels, seven aggregates, layout 1xN",
               "memory_layouts": {"memb": ["z%s,v%s" % m for m in MEM_CF] + ["agg count"],
                                  "memp": ["z%s,v%s" % m for m in MEM_ALL] + ["agg count, percentage (N=8: count)"],
                                  "mem3": ["z%s,v%s" % m for m in MEM_3D] + ["agg sum, max; layer 0, -1"]},
@@ -248,7 +264,7 @@ class CrosstabSpace(Space):
         self._vc = {}
         self.fint = self.zdt.startswith("i")
         self.selkind = kind in ("sel", "selt", "csel", "asel")
-        if kind in ("tab", "lay", "memb", "memp", "mem3"):      # parameter settings do not depend on the raster: plain product
+        if kind in ("tab", "lay", "layo", "memb", "memp", "mem3"):      # parameter settings do not depend on the raster: plain product
             self.fixed = self.variants((), ())
             self.size = self.nzseq * self.nvseq * len(self.fixed)
         else:
@@ -290,6 +306,9 @@ class CrosstabSpace(Space):
             v = [(s, None, None, a, nd, None) for s in self.lay for a in AGG2 for nd in self.nodata_opts]
         elif self.kind == "lay":
             v = [(s, None, None, a, nd, ly) for s in self.lay for a in AGG3 for nd in self.nodata_opts for ly in (0, -1)]
+        elif self.kind == "layo":
+            v = [(s, None, cl, a, nd, ly, ("C", "C"), labs) for s in self.lay[:1] for labs in LABEL_ORDERS[self.L]
+                 for cl in [None] + _sublists(labs, 2)[1:] for a in AGG3 for nd in self.nodata_opts for ly in (0, -1)]
         elif self.kind == "memb":
             v = [(s, None, None, "count", None, None, m) for s in self.lay for m in MEM_CF]
         elif self.kind == "memp":
@@ -344,10 +363,11 @@ class CrosstabSpace(Space):
         z = np.array(self.zseq(zi), dtype=self.zdt).reshape(shape)
         vals = np.array(self.vseq(vi), dtype=self.vdt)
         v = vals.reshape((self.L,) + shape) if self.L else vals.reshape(shape)
-        return (z, v) + tuple(var[1:6]) + (var[6] if len(var) > 6 else ("C", "C"),)
+        return (z, v) + tuple(var[1:6]) + (var[6] if len(var) > 6 else ("C", "C"),
+                                           var[7] if len(var) > 7 else LAYER_IDS[:self.L])
 
     def describe(self, rank):
-        z, v, zone_ids, cat_ids, agg, nodata, layer, mem = self.case(rank)
+        z, v, zone_ids, cat_ids, agg, nodata, layer, mem, labels = self.case(rank)
         d = {"zones": z, "values": v, "zone_ids": zone_ids, "cat_ids": cat_ids, "agg": agg, "nodata_values": nodata}
         if mem != ("C", "C"):
             d["memory_layout"] = {"zones": mem[0], "values": mem[1],
@@ -356,7 +376,7 @@ class CrosstabSpace(Space):
                                             "layout is that of the array handed to the call"}
         if self.L:
             d.update(values_dims=["cat", "y", "x"] if layer == 0 else ["y", "x", "cat"], layer=layer,
-                     layer_ids=list(LAYER_IDS[:self.L]),
+                     layer_ids=list(labels),
                      note="`values` is listed as (layer, y, x); for layer=-1 the call receives it transposed to (y, x, layer)")
         return d
 
@@ -373,8 +393,9 @@ class CrosstabSpace(Space):
             self.one(rank, out)
 
     def one(self, rank, out):
-        z, v, zone_ids, cat_ids, agg, nodata, layer, mem = self.case(rank)
+        z, v, zone_ids, cat_ids, agg, nodata, layer, mem, labels = self.case(rank)
         L = self.L
+        relabelled = self.kind == "layo"        # the model then works on layer POSITIONS 0..L-1, mapped to labels here
         kw = {"agg": agg}
         if zone_ids is not None:
             kw["zone_ids"] = list(zone_ids)
@@ -389,15 +410,17 @@ class CrosstabSpace(Space):
             vda = self.DataArray(vin, dims=("y", "x"))
         elif layer == 0:
             vin = laid_out(v, mem[1], (1, 2))
-            vda = self.DataArray(vin, dims=("cat", "y", "x"), coords={"cat": list(LAYER_IDS[:L])})
+            vda = self.DataArray(vin, dims=("cat", "y", "x"), coords={"cat": list(labels)})
         else:
             vin = laid_out(np.moveaxis(v, 0, -1), mem[1], (0, 1))
-            vda = self.DataArray(vin, dims=("y", "x", "cat"), coords={"cat": list(LAYER_IDS[:L])})
+            vda = self.DataArray(vin, dims=("y", "x", "cat"), coords={"cat": list(labels)})
             kw["layer"] = -1
         assert zda.data.strides == zin.strides and vda.data.strides == vin.strides       # handed over without a copy
         ident = "z=%s|%s=%s|%s%s|zone_ids=%s|cat_ids=%s|agg=%s|nodata=%s%s" % (
             _fmt(z), "layers" if L else "v", _fmt(v), self.zdt, self.vdt, zone_ids, cat_ids, agg, nodata,
             "|layer=%d" % layer if L else "")
+        if relabelled:
+            ident += "|labels=%r" % (list(labels),)
         ident = ident.replace(" ", "")
         if mem != ("C", "C"):
             ident += "|mem=z%s,v%s" % mem
@@ -408,7 +431,12 @@ class CrosstabSpace(Space):
         if not self.vdt.startswith("i") and np.isinf(v).any():
             out.count("cases_with_inf_value_cell")
 
-        if L:
+        if relabelled:
+            want = None if cat_ids is None else [labels.index(c) for c in cat_ids if c in labels]
+            rows, cols, tab = oz.crosstab3d_table(z, v, range(L), zone_ids, want, agg, nodata)
+            nontrivial = any(e is not None for r in tab.values() for e in r.values())
+            has_empty = any(e is None for r in tab.values() for e in r.values())
+        elif L:
             rows, cols, tab = oz.crosstab3d_table(z, v, LAYER_IDS[:L], zone_ids, cat_ids, agg, nodata)
             nontrivial = any(e is not None for r in tab.values() for e in r.values())
             has_empty = any(e is None for r in tab.values() for e in r.values())
@@ -417,12 +445,15 @@ class CrosstabSpace(Space):
             nontrivial = any(e for r in tab.values() for e in r.values())
             has_empty = False
 
+        def lab(c):          # label of the model's column id
+            return labels[int(c)] if relabelled else c
+
         def bad(cause, symptom, msg, observed=None):
             out.count("viol:%s/%s/%s" % (what, cause, symptom))
             out.violation(rank, "C04|%s/%s/%s|%s" % (what, cause, symptom, ident), "zonal.crosstab(%s): %s" % (ident, msg),
                           case=self.describe(rank), observed=observed,
-                          expected={"zones": rows, "cats": cols, "table": {str(k): {str(c): e for c, e in r.items()}
-                                                                            for k, r in tab.items()}})
+                          expected={"zones": rows, "cats": [lab(c) for c in cols],
+                                    "table": {str(k): {str(lab(c)): e for c, e in r.items()} for k, r in tab.items()}})
 
         try:
             res = self.crosstab(zda, vda, **kw)
@@ -437,20 +468,22 @@ class CrosstabSpace(Space):
             out.ok()
             return bad("unexplained", "exception", "raised %s: %s" % (type(e).__name__, str(e)[:300]), repr(e))
 
-        labels = list(res.columns)
+        colnames = list(res.columns)
         arr = res.to_numpy(dtype=float)
-        out.case(outcome=bytes64(arr.tobytes() + repr([str(c) for c in labels]).encode()), nontrivial=nontrivial, calls=1)
+        out.case(outcome=bytes64(arr.tobytes() + repr([str(c) for c in colnames]).encode()), nontrivial=nontrivial, calls=1)
         out.ok()
         try:
-            if labels[0] != "zone":
+            if colnames[0] != "zone":
                 raise ValueError("first column is not 'zone'")
-            ocols = [float(c) for c in labels[1:]]
+            ocols = [float(labels.index(c)) if relabelled else float(c) for c in colnames[1:]]
         except (ValueError, TypeError, IndexError):
-            return bad("unexplained", "columns", "columns are %r, expected 'zone' + categories %r" % (labels, cols), res)
+            return bad("unexplained", "columns", "columns are %r, expected 'zone' + categories %r"
+                       % (colnames, [lab(c) for c in cols]), res)
         orows = arr[:, 0].tolist()
         obs = {(orows[i], ocols[j]): arr[i, j + 1].item() for i in range(len(orows)) for j in range(len(ocols))}
         if sorted(ocols) != cols:
-            return bad("unexplained", "columns", "category columns are %r, expected exactly %r (any order)" % (ocols, cols), res)
+            return bad("unexplained", "columns", "category columns are %r, expected exactly %r (any order)"
+                       % (colnames[1:], [lab(c) for c in cols]), res)
         if sorted(orows) != rows:
             return bad("unexplained", "rows", "rows are labelled %r, expected exactly the zones %r (any order)" % (orows, rows), res)
         for zz in rows:
@@ -462,7 +495,7 @@ class CrosstabSpace(Space):
                 if not oz.close(o, e):
                     cause = self.diagnose(obs, z, v, zone_ids, cat_ids, agg, nodata, rows, tab)
                     return bad(cause, "entry", "entry (zone %r, %s %r) is %r, expected %r [%s]"
-                               % (zz, "layer" if L else "category", c, o, e, cause), res)
+                               % (zz, "layer" if L else "category", lab(c), o, e, cause), res)
         if nontrivial and len(rows) >= 2 and len(cols) >= 2 and out.want_sample():
             out.sample({"call": self.describe(rank), "result": res})
 
